@@ -153,6 +153,9 @@ type server struct {
 	unary   grpc.UnaryServerInterceptor
 	stream  grpc.StreamServerInterceptor
 	cleanup func()
+	// request sequences (serveOn): the HTTP middleware is mounted ONCE, as on a real server
+	mounted http.Handler
+	inner   func(ctx context.Context)
 }
 
 type nopLogger struct{}
@@ -238,6 +241,53 @@ func (s *server) serve(hdr http.Header, md metadata.MD, inner func(ctx context.C
 	}
 }
 
+const (
+	httpOtherPath   = "/items"
+	grpcOtherMethod = "/svc.Items/List"
+)
+
+// serveOn delivers one request of a SEQUENCE: like serve, but the HTTP middleware wraps its
+// handler once per server (state the middleware keeps between requests is then part of the
+// execution) and the path / full method is chosen per request (discarded = matches reMatch).
+func (s *server) serveOn(discarded bool, hdr http.Header, md metadata.MD, inner func(ctx context.Context)) {
+	path, method := httpOtherPath, grpcOtherMethod
+	if discarded {
+		path, method = httpPath, grpcMethod
+	}
+	s.inner = inner
+	switch {
+	case s.httpMW != nil:
+		if s.mounted == nil {
+			s.mounted = s.httpMW(http.HandlerFunc(func(rw http.ResponseWriter, r *http.Request) {
+				s.inner(r.Context())
+				rw.WriteHeader(http.StatusOK)
+				_, _ = rw.Write([]byte("ok"))
+			}))
+		}
+		req := httptest.NewRequest("GET", path, nil)
+		for k, v := range hdr {
+			req.Header[k] = v
+		}
+		s.mounted.ServeHTTP(httptest.NewRecorder(), req)
+	default:
+		ctx := context.Background()
+		if md != nil {
+			ctx = metadata.NewIncomingContext(ctx, md)
+		}
+		if s.unary != nil {
+			_, _ = s.unary(ctx, "req", &grpc.UnaryServerInfo{FullMethod: method}, func(ctx context.Context, req any) (any, error) {
+				s.inner(ctx)
+				return "resp", nil
+			})
+		} else {
+			_ = s.stream(nil, &fakeStream{ctx: ctx}, &grpc.StreamServerInfo{FullMethod: method}, func(srv any, ss grpc.ServerStream) error {
+				s.inner(ss.Context())
+				return nil
+			})
+		}
+	}
+}
+
 // expectation about sampling for a request without inbound trace ID.
 const (
 	expNone   = iota // statement silent (0<p<100, adaptive, discarded)
@@ -312,6 +362,10 @@ type traceCase struct {
 	Inbound    string `json:"inbound"`  // none | trace | trace+parent | parent-only
 	Answer     int    `json:"answer"`   // what the random source answers
 	Requests   int    `json:"requests"` // consecutive identical requests through one middleware instance
+	// Seq, when set, replaces Requests/Inbound: a sequence of DIFFERENT requests through one
+	// mounted middleware instance; an element is "<d|n>:<inbound>", d = path / full method
+	// matches the discard pattern, n = it does not.
+	Seq []string `json:"sequence,omitempty"`
 }
 
 var (
@@ -392,6 +446,33 @@ func checkTrace(cs traceCase) (fails []failure, outcome string) {
 	if n < 1 {
 		n = 1
 	}
+	if len(cs.Seq) > 0 {
+		// every request is judged on its own: what an earlier request was must not matter
+		for i, el := range cs.Seq {
+			disc, inbound := el[:1] == "d", el[2:]
+			wi := wireFor(inbound)
+			expi := expNone
+			switch {
+			case cs.Percent == 0:
+				expi = expNever
+			case cs.Percent == 100 && !disc:
+				expi = expAlways
+			}
+			setAnswer(cs.Answer)
+			var o traceObs
+			srv.serveOn(disc, wi.header(), wi.md(), func(ctx context.Context) { observeTrace(ctx, &o) })
+			for _, d := range judgeServer(wi, o, expi, seen) {
+				prev := "first"
+				if i > 0 {
+					prev = "after=" + cs.Seq[i-1]
+				}
+				sig := fmt.Sprintf("trace-sequence transport=%s sampler=%s request=%s %s observed=%s", cs.Transport, sc, el, prev, d.Sig)
+				fails = append(fails, failure{sig, fmt.Sprintf("request %d (%s) of the sequence %v: %s [case %s]", i, el, cs.Seq, d.What, desc)})
+			}
+			outcome = fmt.Sprintf("trace-sequence %s %s last=%s traced=%v", cs.Transport, sc, el, o.traced())
+		}
+		return fails, outcome
+	}
 	firstTraced := false
 	for i := 0; i < n; i++ {
 		setAnswer(cs.Answer)
@@ -449,7 +530,7 @@ func runTrace(c *core.Ctx) {
 		key, _ := json.Marshal(cs)
 		c.State("trace:"+string(key), cs.Inbound != "none")
 		fails, outcome := checkTrace(cs)
-		c.Exec(int64(cs.Requests))
+		c.Exec(int64(cs.Requests + len(cs.Seq)))
 		noteOutcome(c, outcome)
 		cases++
 		if cases%4099 == 0 {
@@ -492,6 +573,33 @@ func runTrace(c *core.Ctx) {
 			}
 		}
 	}
+	// request sequences through one mounted middleware instance: every sequence of length
+	// <= 3 over {discarded, other path} x {no inbound trace, inbound trace}, exact percentages
+	alphabet := []string{"d:none", "n:none", "d:trace", "n:trace+parent"}
+	var seqs [][]string
+	var grow func(prefix []string)
+	grow = func(prefix []string) {
+		if len(prefix) > 0 {
+			seqs = append(seqs, append([]string{}, prefix...))
+		}
+		if len(prefix) == 3 {
+			return
+		}
+		for _, a := range alphabet {
+			grow(append(prefix, a))
+		}
+	}
+	grow(nil)
+	var nseq int64
+	for _, tr := range transports {
+		for _, p := range []int{0, 100} {
+			for _, sq := range seqs {
+				one(traceCase{Transport: tr, Sampler: "fixed", Percent: p, Discard: "match", IDFuncs: "counters", Answer: 50, Seq: sq})
+				nseq++
+			}
+		}
+	}
+	c.Note("trace_sequence_cases(one mounted instance, sequences <= 3 over 4 request kinds)", nseq)
 	c.Note("trace_cases", cases)
 }
 
